@@ -2,6 +2,7 @@ use crate::{
     cf_types::CfRule,
     expressions::{
         parser::move_formula::{move_formula, ref_is_in_area, MoveContext},
+        parser::stringify::to_english_string,
         types::{Area, CellReferenceRC},
         utils,
     },
@@ -135,6 +136,23 @@ fn cf_sqref_update_for_cut(sqref: &str, area: &Area, row_delta: i32, col_delta: 
         .map(|p| cf_range_part_update_for_cut(p, area, row_delta, col_delta))
         .collect::<Vec<_>>()
         .join(" ")
+}
+
+/// Returns the top-left cell of the bounding box of all the areas of a sqref string:
+/// the cell the formulas of a rule are read relative to when the rule is evaluated.
+fn cf_sqref_top_left(sqref: &str) -> Option<(i32, i32)> {
+    let mut top_left: Option<(i32, i32)> = None;
+    for part in sqref.split_whitespace() {
+        let upper = part.to_uppercase();
+        for corner in upper.splitn(2, ':') {
+            let r = utils::parse_reference_a1(corner)?;
+            top_left = Some(match top_left {
+                Some((row, column)) => (row.min(r.row), column.min(r.column)),
+                None => (r.row, r.column),
+            });
+        }
+    }
+    top_left
 }
 
 /// Returns the (row, column) of the top-left cell in a sqref string.
@@ -460,7 +478,7 @@ impl<'a> Model<'a> {
     /// Returns `(new_range_sqref, cf_rule)` for each overlapping CF entry.
     #[allow(clippy::too_many_arguments)]
     pub(crate) fn get_cf_rules_to_copy(
-        &self,
+        &mut self,
         source_sheet: u32,
         src_row1: i32,
         src_col1: i32,
@@ -469,20 +487,96 @@ impl<'a> Model<'a> {
         tgt_row: i32,
         tgt_col: i32,
     ) -> Vec<(String, CfRule)> {
-        let ws = match self.workbook.worksheets.get(source_sheet as usize) {
-            Some(ws) => ws,
-            None => return vec![],
-        };
+        let (sheet_name, entries): (String, Vec<(String, CfRule)>) =
+            match self.workbook.worksheets.get(source_sheet as usize) {
+                Some(ws) => (
+                    ws.get_name(),
+                    ws.conditional_formatting
+                        .iter()
+                        .map(|cf| (cf.range.clone(), cf.cf_rule.clone()))
+                        .collect(),
+                ),
+                None => return vec![],
+            };
 
         let mut results = Vec::new();
-        for cf in &ws.conditional_formatting {
+        for (range, rule) in entries {
             let new_range = map_cf_sqref_to_target(
-                &cf.range, src_row1, src_col1, src_row2, src_col2, tgt_row, tgt_col,
+                &range, src_row1, src_col1, src_row2, src_col2, tgt_row, tgt_col,
             );
             if !new_range.is_empty() {
-                results.push((new_range, cf.cf_rule.clone()));
+                // The formulas of a rule are read relative to the top-left cell of its
+                // range. The copy has another top-left cell, so the formulas are
+                // translated like the formula of a copied cell: relative references
+                // follow the copy, absolute references stay.
+                let new_rule = match (cf_sqref_top_left(&range), cf_sqref_top_left(&new_range)) {
+                    (Some(old_anchor), Some(new_anchor)) if old_anchor != new_anchor => {
+                        self.cf_rule_copy_formulas(rule, &sheet_name, old_anchor, new_anchor)
+                    }
+                    _ => rule,
+                };
+                results.push((new_range, new_rule));
             }
         }
         results
+    }
+
+    /// Rewrites the formula fields of a `CfRule` that is applied to a copy of its
+    /// range: each formula is read at `old_anchor` and written as seen from `new_anchor`.
+    fn cf_rule_copy_formulas(
+        &mut self,
+        rule: CfRule,
+        sheet_name: &str,
+        old_anchor: (i32, i32),
+        new_anchor: (i32, i32),
+    ) -> CfRule {
+        let mut copy_f = |formula: &str| -> String {
+            let trimmed = formula.trim();
+            let has_eq = trimmed.starts_with('=');
+            let body = if has_eq { &trimmed[1..] } else { trimmed };
+            let old_ref = CellReferenceRC {
+                sheet: sheet_name.to_string(),
+                row: old_anchor.0,
+                column: old_anchor.1,
+            };
+            let new_ref = CellReferenceRC {
+                sheet: sheet_name.to_string(),
+                row: new_anchor.0,
+                column: new_anchor.1,
+            };
+            // CF formulas are stored internally in English.
+            let node = self.parse_internal_formula(body, &old_ref);
+            let new_body = to_english_string(&node, &new_ref);
+            if has_eq {
+                format!("={new_body}")
+            } else {
+                new_body
+            }
+        };
+        match rule {
+            CfRule::Formula {
+                formula,
+                dxf_id,
+                stop_if_true,
+            } => CfRule::Formula {
+                formula: copy_f(&formula),
+                dxf_id,
+                stop_if_true,
+            },
+            CfRule::CellIs {
+                operator,
+                formula,
+                formula2,
+                dxf_id,
+                stop_if_true,
+            } => CfRule::CellIs {
+                operator,
+                formula: copy_f(&formula),
+                formula2: formula2.as_deref().map(copy_f),
+                dxf_id,
+                stop_if_true,
+            },
+            other => other,
+        }
     }
 }
